@@ -497,6 +497,40 @@ def d2d_policy_aware_insertion(chk: Check) -> None:
                      "no policy-aware merger is given the target")
 
 
+def _calls_with_argument(prog, fi: FuncInfo, pname: str):
+    """Calls of ``fi`` inside merger.py -> (caller, call, argument for
+    ``pname`` is a container built on the spot)."""
+    idx = fi.params().index(pname)
+    if fi.params()[0] == "self":
+        idx -= 1
+    fresh_ctor = ("CommentedSet", "CommentedSeq", "CommentedMap", "list",
+                  "dict", "set")
+    out = []
+    for caller in prog.funcs_in("yamlpath/merger/merger.py"):
+        for c in walk_local(caller.node):
+            if not (isinstance(c, ast.Call) and
+                    isinstance(c.func, ast.Attribute) and
+                    c.func.attr == fi.node.name):
+                continue
+            arg = c.args[idx] if idx < len(c.args) else next(
+                (k.value for k in c.keywords if k.arg == pname), None)
+            if arg is None:
+                continue
+            fresh = src(arg.func) if isinstance(arg, ast.Call) and \
+                src(arg.func) in fresh_ctor else ""
+            if isinstance(arg, ast.Name):
+                for a in walk_local(caller.node):
+                    if isinstance(a, (ast.Assign, ast.AnnAssign)) and \
+                            a.value is not None and \
+                            src(a.targets[0] if isinstance(a, ast.Assign)
+                                else a.target) == arg.id and \
+                            isinstance(a.value, ast.Call) and \
+                            src(a.value.func) in fresh_ctor:
+                        fresh = src(a.value.func)
+            out.append((caller, c, fresh))
+    return out
+
+
 def d7_policy_for_incoming_node(chk: Check) -> None:
     """The per-path rules of a merge are written against, and prepared for,
     the *incoming* (right-hand) document: MergerConfig looks a node up by
@@ -510,6 +544,7 @@ def d7_policy_for_incoming_node(chk: Check) -> None:
     chk.rule("C11-D7", "every NodeCoords built in merger.py for a policy "
              "lookup wraps a node of the incoming (right-hand) document",
              floor=6)
+    lookups: Dict[Tuple[str, str], FuncInfo] = {}
     for fi in prog.funcs_in("yamlpath/merger/merger.py"):
         params = fi.params()
         for c in walk_local(fi.node):
@@ -531,6 +566,7 @@ def d7_policy_for_incoming_node(chk: Check) -> None:
                 root = root_name(lb[1])
             text = "{}: NodeCoords({}, ...)".format(fi.short, src(node))
             if root in rhs_names:
+                lookups.setdefault((fi.qual, root), fi)
                 chk.ok("C11-D7", fi, c, text, "a node of `{}`".format(root))
             else:
                 chk.fail("C11-D7", fi, c, text,
@@ -538,6 +574,49 @@ def d7_policy_for_incoming_node(chk: Check) -> None:
                          "`{}`, which is not part of the incoming document: "
                          "the per-path rule for this node is never found and "
                          "the global default decides".format(src(node)))
+
+
+    # ... and the parameter those coordinates are built from is a node of
+    # the incoming document at every call site: a caller that hands in a
+    # container it has just built (a Hash wrapped in a list, the members of
+    # a set copied into a list or a Hash) has nothing a rule could have been
+    # recorded for
+    chk.rule("C11-D7b", "no routine that builds lookup coordinates from its "
+             "right-hand parameter is called with a container built on the "
+             "spot", floor=8)
+    for (_, pname), callee in sorted(lookups.items()):
+        for caller, call, fresh in _calls_with_argument(prog, callee, pname):
+            text = "{}: {}(<{}>)".format(
+                caller.short, callee.node.name,
+                "new " + fresh if fresh else "document node")
+            kw = {k.arg: k.value for k in call.keywords if k.arg}
+            rhs_params = {p_ for p_ in caller.params() if p_.startswith("rhs")}
+            foreign = None
+            if "parent" in kw and not (
+                    src(kw["parent"]) in rhs_params or
+                    (isinstance(kw["parent"], ast.Constant) and
+                     kw["parent"].value is None)):
+                foreign = kw["parent"]
+            if foreign is not None:
+                chk.fail("C11-D7b", caller, call, text,
+                         "`parent={}` does not come from the incoming "
+                         "document: the coordinates (node, parent, "
+                         "parentref) the callee looks a rule up with "
+                         "describe where the operand sits in the "
+                         "*right-hand* document; with the target's "
+                         "coordinates the rule recorded for the merge point "
+                         "is never found".format(src(foreign)[:40]))
+            elif fresh:
+                chk.fail("C11-D7b", caller, call, text,
+                         "the right-hand operand handed to {} is a "
+                         "temporary: the coordinates built from it are in "
+                         "no rule table, so a per-path rule (or identity "
+                         "key) configured for the merge point is silently "
+                         "replaced by the default policy".format(
+                             callee.node.name))
+            else:
+                chk.ok("C11-D7b", caller, call, text, "a node of the "
+                       "incoming document")
 
 
 def d9_every_match_is_a_target(chk: Check) -> None:
